@@ -147,6 +147,9 @@ func commandPattern(n *Node) string {
 	if n.Say > 0 {
 		fmt.Fprintf(&b, " -say %d", n.Say)
 	}
+	if n.Note != "" {
+		b.WriteString(" -note " + n.Note)
+	}
 	if n.LongArg > 0 {
 		b.WriteString(" -note " + strings.Repeat("w", n.LongArg))
 	}
